@@ -1066,22 +1066,29 @@ func ruleContentType(c *chk.Ctx) {
 			n++
 			built := false
 			for _, cd := range c.P.CondsWithin(al, f) {
-				if bo, ok := cd.V.(*ssa.BinOp); ok && bo.Op == token.NEQ && cd.Truth && bo.X.Type().String() == "string" {
-					built = true
+				if x, _, op, isRel := ir.Rel(cd); isRel && op == token.NEQ && x.Type().String() == "string" {
+					built = true // got != want, however the test is spelled
 				}
 			}
 			c.Check(built, "TABLE.ctype", f, "mismatch error exactly on got != want", al.Pos(), "the mismatch error is built on the contentType != expected edge", "the content-type mismatch error is not governed by got != want")
 			// returned together with the payload on the success path
-			together := false
-			for _, r := range ir.Returns(f) {
+			// (on every path that returns a payload: a body read by a helper must not lose it)
+			together, nPay := true, 0
+			for _, r := range effectiveReturns(c, f, 0) {
 				if !ir.IsNilConst(ir.ReturnResult(r, 0)) {
+					nPay++
+					has := false
 					for _, src := range c.P.Sources(ir.ReturnResult(r, 1)) {
 						if src == ssa.Value(al) {
-							together = true
+							has = true
 						}
+					}
+					if !has {
+						together = false
 					}
 				}
 			}
+			together = together && nPay > 0
 			c.Check(together, "TABLE.ctype", f, "mismatch reported with the payload", al.Pos(), "the mismatch error accompanies the payload", "the mismatch error is not returned together with the payload")
 		})
 		// lenient: clears error only on *Mismatch ∧ Got == "" (the test may sit in a predicate helper)
@@ -1104,14 +1111,17 @@ func ruleContentType(c *chk.Ctx) {
 			if ta.Parent() != f {
 				taAnchors = anchorsIn(c, ta, f)
 			}
-			for _, r := range ir.Returns(f) {
+			for _, r := range effectiveReturns(c, f, 0) {
 				dominated := false
 				for _, a := range taAnchors {
-					if ir.InstrDominates(a, r) {
+					if a.Parent() == r.Parent() && ir.InstrDominates(a, r) {
 						dominated = true
 					}
 				}
-				if !dominated {
+				if r.Parent() == ta.Parent() && ir.InstrDominates(ta, r) {
+					dominated = true
+				}
+				if !dominated || len(r.Results) < 2 {
 					continue
 				}
 				ev := ir.ReturnResult(r, 1)
@@ -1119,6 +1129,21 @@ func ruleContentType(c *chk.Ctx) {
 					for i, e := range phi.Edges {
 						if ir.IsNilConst(e) {
 							for _, a := range expandPredicateHelpers(c, ir.EdgeConds(phi.Block().Preds[i], phi.Block()), 0) {
+								clears = append(clears, clearing{a})
+							}
+						}
+					}
+					continue
+				}
+				// the error filtered by a private helper that holds the assertion: the helper's
+				// own nil returns after the assertion are the clearings
+				if hc, isCall := ir.NormCell(ev).(*ssa.Call); isCall && hc.Call.StaticCallee() == ta.Parent() && ta.Parent() != f && ta.Parent().Signature.Results().Len() == 1 {
+					for _, r2 := range ir.Returns(ta.Parent()) {
+						if !ir.IsNilConst(ir.ReturnResult(r2, 0)) || !ir.InstrDominates(ta, r2) {
+							continue
+						}
+						for _, alt := range ir.CondAltsAt(r2.Block()) {
+							for _, a := range expandPredicateHelpers(c, alt, 0) {
 								clears = append(clears, clearing{a})
 							}
 						}
@@ -1227,8 +1252,9 @@ func ruleReaderAcceptsDataEOF(c *chk.Ctx) {
 // parsed length.
 func ruleRecordFilledByFullRead(c *chk.Ctx) {
 	for _, f := range chanMethods(c, "Recv") {
+		// the length-prefixed receiver: the one in whose extended body a length is parsed
 		var parse *ssa.Call
-		ir.Instrs(f, func(ins ssa.Instruction) {
+		c.P.ExtInstrs(f, func(ins ssa.Instruction) {
 			if call, ok := ins.(*ssa.Call); ok && ir.IsCallTo(&call.Call, "strconv.Atoi", "strconv.ParseInt", "strconv.ParseUint") {
 				parse = call
 			}
@@ -1236,25 +1262,105 @@ func ruleRecordFilledByFullRead(c *chk.Ctx) {
 		if parse == nil {
 			continue
 		}
-		var fulls []*ssa.Call
-		ir.Instrs(f, func(ins ssa.Instruction) {
-			if call, ok := ins.(*ssa.Call); ok && ir.IsCallTo(&call.Call, "io.ReadFull", "io.ReadAtLeast", "io.CopyN") {
-				fulls = append(fulls, call)
-			}
-		})
 		n := 0
+		isFull := func(ins ssa.Instruction) (*ssa.Call, bool) {
+			fr, isCall := ins.(*ssa.Call)
+			return fr, isCall && ir.IsCallTo(&fr.Call, "io.ReadFull", "io.ReadAtLeast", "io.CopyN")
+		}
+		// complete: the record value v, as returned (or handed on) at `at`, was filled by a
+		// full read that succeeded. knownNil says which error values are known nil there.
+		var complete func(v ssa.Value, at ssa.Instruction, knownNil func(ssa.Value) bool, depth int) bool
+		complete = func(v ssa.Value, at ssa.Instruction, knownNil func(ssa.Value) bool, depth int) bool {
+			if depth > 3 {
+				return false
+			}
+			g := at.Parent()
+			done := false
+			ir.Instrs(g, func(ins ssa.Instruction) {
+				if fr, ok := isFull(ins); ok && ir.InstrDominates(fr, at) {
+					for _, ref := range *fr.Referrers() {
+						if e, isE := ref.(*ssa.Extract); isE && e.Index == 1 && knownNil(e) {
+							done = true
+						}
+					}
+				}
+			})
+			if done {
+				return true
+			}
+			v = ir.NormCell(v)
+			// chosen on the way into a shared exit: each way for itself; an error variable chosen
+			// alongside stands, on that way, for the value that flowed into it
+			if phi, isPhi := v.(*ssa.Phi); isPhi {
+				blk := phi.Block()
+				for i, e := range phi.Edges {
+					pred := blk.Preds[i]
+					edge := append(append([]ir.Cond{}, ir.CondsAt(pred)...), ir.EdgeConds(pred, blk)...)
+					i := i
+					kn := func(x ssa.Value) bool {
+						if ir.ProvesNil(edge, func(y ssa.Value) bool { return y == x }) || knownNil(x) {
+							return true
+						}
+						for _, ins := range blk.Instrs {
+							p2, isP := ins.(*ssa.Phi)
+							if !isP {
+								break
+							}
+							if i < len(p2.Edges) && p2.Edges[i] == x && knownNil(p2) {
+								return true
+							}
+						}
+						return false
+					}
+					if !complete(e, pred.Instrs[len(pred.Instrs)-1], kn, depth+1) {
+						return false
+					}
+				}
+				return len(phi.Edges) > 0
+			}
+			// one result of a private helper that reads the body: every record the helper
+			// returns is complete
+			var call *ssa.Call
+			idx := 0
+			if e, isE := v.(*ssa.Extract); isE {
+				call, _ = e.Tuple.(*ssa.Call)
+				idx = e.Index
+			} else if cv, isCall := v.(*ssa.Call); isCall {
+				call = cv
+			}
+			if call == nil {
+				return false
+			}
+			h := call.Call.StaticCallee()
+			if h == nil || !c.P.InRepo[h] || ir.Exported(h) || len(h.Blocks) == 0 {
+				return false
+			}
+			// (every record the helper can return is judged where the helper returns it; whether
+			// it also reports an error there does not matter)
+			some := false
+			for _, r2 := range ir.Returns(h) {
+				rv := ir.ReturnResult(r2, idx)
+				if ir.IsNilConst(rv) {
+					continue
+				}
+				some = true
+				conds := ir.CondsAt(r2.Block())
+				if !complete(rv, r2, func(x ssa.Value) bool { return ir.ProvesNil(conds, func(y ssa.Value) bool { return y == x }) }, depth+1) {
+					return false
+				}
+			}
+			return some
+		}
 		for _, r := range ir.Returns(f) {
-			if ir.IsNilConst(ir.ReturnResult(r, 0)) {
+			if len(r.Results) == 0 || ir.IsNilConst(ir.ReturnResult(r, 0)) {
+				continue
+			}
+			if r.Parent().Recover != nil && r.Block() == r.Parent().Recover {
 				continue
 			}
 			n++
-			ok := false
-			for _, fr := range fulls {
-				sameErr := func(v ssa.Value) bool { return ir.IsExtractOf(v, fr, 1) }
-				if ir.InstrDominates(fr, r) && ir.ProvesNil(ir.CondsAt(r.Block()), sameErr) {
-					ok = true
-				}
-			}
+			conds := ir.CondsAt(r.Block())
+			ok := complete(ir.ReturnResult(r, 0), r, func(x ssa.Value) bool { return ir.ProvesNil(conds, func(y ssa.Value) bool { return y == x }) }, 0)
 			c.Check(ok, "PAIR.fullread", f, "record returned only after a complete read", r.Pos(), "the record is returned only on the err == nil edge of io.ReadFull/io.CopyN for the declared length", "a record is returned without the success of a full-read primitive for the declared length (e.g. a limited ReadFrom, which swallows EOF): a body cut off by end of stream would be delivered shortened, with no error")
 		}
 		if n == 0 {
@@ -1262,6 +1368,7 @@ func ruleRecordFilledByFullRead(c *chk.Ctx) {
 		}
 		return
 	}
+	c.Undecided("PAIR.fullread", nil, "length-prefixed receiver", 0, "no Recv method that parses a length found")
 }
 
 // ruleDataWithReaderError: a delimiter receiver that hands back data together
